@@ -21,6 +21,8 @@ def main():
     fcntl.flock(lock, fcntl.LOCK_EX)   # runs of the same property share build/<ID>: serialise them
     ck = vlib.Check(a.pid, a.tier, seed)
     try:
+        import pins
+        pins.verify(ck)
         mod.run(ck)
     except Exception as e:  # a crash of the machinery must not look like a pass
         import traceback
